@@ -14,6 +14,7 @@ package state
 
 import (
 	"bytes"
+	"encoding/json"
 	"errors"
 	"fmt"
 	"sort"
@@ -457,3 +458,173 @@ func c04Gen(r *vh.Rand, tier string, n int) []c04In {
 }
 
 func TestVerifC04Restart(t *testing.T) { vh.Run(c04Gen, c04Exec) }
+
+// ---------------------------------------------------------------- second driver: the checkpoint discipline
+// The runner model (and the restart runs above) assume that the store holds the payload of the LAST unlock. This driver
+// observes on the real State.Unlock that every Backend.Checkpoint call happens with the state lock held and that the writes
+// complete in unlock order, under concurrent lock/modify/unlock cycles, a running TaskRunner and pseudo-randomly slow writes.
+
+type c04oIn struct {
+	Mutators int    `json:"mutators"`
+	Cycles   int    `json:"cycles"`
+	Tasks    int    `json:"tasks"`
+	Sleep    uint64 `json:"sleep"` // seed of the per-call write delays
+}
+
+type c04oBackend struct {
+	st        *State
+	seed      uint64
+	mu        sync.Mutex
+	calls     int
+	locked    []bool
+	completed []int
+	last      []byte
+}
+
+type c04oPayload struct {
+	Data  map[string]json.RawMessage `json:"data"`
+	Tasks map[string]struct {
+		Status int `json:"status"`
+	} `json:"tasks"`
+}
+
+func c04oParse(d []byte) (seq int, sts [][2]int) {
+	var p c04oPayload
+	if err := json.Unmarshal(d, &p); err != nil {
+		panic(err)
+	}
+	if raw, ok := p.Data["seq"]; ok {
+		json.Unmarshal(raw, &seq)
+	}
+	for id, t := range p.Tasks {
+		n, _ := strconv.Atoi(id)
+		s := t.Status
+		if s == 0 {
+			s = 2
+		}
+		sts = append(sts, [2]int{n, s})
+	}
+	sort.Slice(sts, func(i, j int) bool { return sts[i][0] < sts[j][0] })
+	return seq, sts
+}
+
+func (b *c04oBackend) Checkpoint(d []byte) error {
+	b.mu.Lock()
+	k := b.calls
+	b.calls++
+	b.mu.Unlock()
+	// is the state lock held while the checkpoint is being written? (the caller is the holder: TryLock must fail)
+	held := true
+	if b.st.mu.TryLock() {
+		held = false
+		b.st.mu.Unlock()
+	}
+	seq, _ := c04oParse(d)
+	// a slow write now and then
+	if ms := vh.NewRand(b.seed + uint64(k)).Intn(5); ms > 1 {
+		time.Sleep(time.Duration(ms-1) * time.Millisecond)
+	}
+	b.mu.Lock()
+	b.locked = append(b.locked, held)
+	b.completed = append(b.completed, seq)
+	b.last = append([]byte(nil), d...)
+	b.mu.Unlock()
+	return nil
+}
+func (b *c04oBackend) EnsureBefore(time.Duration) {}
+
+func c04oExec(in c04oIn) vh.Out {
+	be := &c04oBackend{seed: in.Sleep}
+	st := New(be)
+	be.st = st
+	seq := 0 // guarded by the state lock
+	bump := func() {
+		seq++
+		st.Set("seq", seq)
+	}
+	st.Lock()
+	chg := st.NewChange("c", "s")
+	var prev *Task
+	for i := 0; i < in.Tasks; i++ {
+		t := st.NewTask("k", "s")
+		if prev != nil {
+			t.WaitFor(prev)
+		}
+		chg.AddTask(t)
+		prev = t
+	}
+	bump()
+	st.Unlock()
+	r := NewTaskRunner(st)
+	r.AddHandler("k", func(t *Task, _ *tomb.Tomb) error {
+		st.Lock()
+		bump()
+		st.Unlock()
+		return nil
+	}, nil)
+	var wg sync.WaitGroup
+	for m := 0; m < in.Mutators; m++ {
+		wg.Add(1)
+		go func() {
+			defer wg.Done()
+			for i := 0; i < in.Cycles; i++ {
+				st.Lock()
+				bump()
+				st.Unlock()
+			}
+		}()
+	}
+	for i := 0; i < 4*in.Tasks+4; i++ {
+		r.Ensure()
+		r.Wait()
+	}
+	wg.Wait()
+	r.Stop()
+	st.Lock()
+	newest := seq
+	st.unlock()
+	mem := c04Statuses(st)
+	be.mu.Lock()
+	locked, completed, last := be.locked, be.completed, be.last
+	be.mu.Unlock()
+	_, lastSts := c04oParse(last)
+	lb := make([]string, len(locked))
+	outOfLock := 0
+	for i, b := range locked {
+		lb[i] = vh.CoqBool(b)
+		if !b {
+			outOfLock++
+		}
+	}
+	outOfOrder := 0
+	for i := 1; i < len(completed); i++ {
+		if completed[i] < completed[i-1] {
+			outOfOrder++
+		}
+	}
+	coq := "(OCase " + vh.CoqList(lb) + " " + c04NL(completed) + " " + vh.CoqN(uint64(newest)) + " " + c04Pairs(mem) + " " + c04Pairs(lastSts) + ")"
+	var tags []string
+	if outOfLock > 0 {
+		tags = append(tags, "checkpoint-written-outside-the-state-lock")
+	}
+	if outOfOrder > 0 {
+		tags = append(tags, "checkpoints-out-of-order")
+	}
+	tags = append(tags, "mutators="+strconv.Itoa(in.Mutators))
+	obs := map[string]interface{}{"checkpoints": len(completed), "outside_lock": outOfLock, "out_of_order": outOfOrder,
+		"completed": completed, "newest": newest, "memory": mem, "last_written": lastSts}
+	return vh.Out{Observed: obs, Coq: coq, NonTrivial: len(completed) > 5, Tags: tags}
+}
+
+func c04oGen(r *vh.Rand, tier string, n int) []c04oIn {
+	if n == 0 {
+		n = 12
+	}
+	var ins []c04oIn
+	for i := 0; i < n; i++ {
+		ins = append(ins, c04oIn{Mutators: r.Range(1, 3), Cycles: r.Range(4, 12), Tasks: r.Range(1, 3), Sleep: r.U64() % 100000})
+	}
+	return ins
+}
+
+func TestVerifC04CkptOrder(t *testing.T) { vh.Run(c04oGen, c04oExec) }
